@@ -988,7 +988,6 @@ func (P *Prog) tableFuncExpiry(h *ssa.Function, add ssa.CallInstruction, until s
 	return false, ""
 }
 
-
 // hostPartNorm: the text before the first ":" written with strings.Cut is the same value as strings.Split(x, ":")[0].
 func hostPartNorm(s string) string {
 	const pre, suf = `strings.Cut(`, `,":")#0`
